@@ -41,9 +41,12 @@ def expr_text(e):
     return "{" + ", ".join(atom_text(a) for a in e) + "}"
 
 
-def attrs_text(attrs):
+def attrs_text(attrs, separate=False):
+    """one (* ... *) group holding all attributes, or (separate) one group per attribute"""
     if not attrs:
         return ""
+    if separate:
+        return " ".join("(* %s *)" % (k if v is None else "%s = %s" % (k, v)) for k, v in attrs.items()) + "\n"
     return "(* " + ", ".join(k if v is None else "%s = %s" % (k, v) for k, v in attrs.items()) + " *)\n"
 
 
@@ -53,7 +56,7 @@ def render_module(m, style="header", comments=False, alt=False):
     w = o.append
     if m.get("celldefine"):
         w("`celldefine")
-    w(attrs_text(m.get("attrs")) + "module " + esc(m["name"]))
+    w(attrs_text(m.get("attrs"), bool(alt)) + "module " + esc(m["name"]))
     if m.get("params"):
         w("#(" + ", ".join("parameter %s = %s" % kv for kv in m["params"].items()) + ")")
     dirs = {"in": "input", "out": "output", "inout": "inout"}
@@ -116,7 +119,7 @@ def render_module(m, style="header", comments=False, alt=False):
         w("  /* block comment\n     over two lines: gain * / 2, / * and // and ** / inside **/")
         w("  // a line comment with /* inside and a * / pair")
     for x in m.get("insts", ()):
-        head = attrs_text(x.get("attrs")) + "  " + esc(x["module"])
+        head = attrs_text(x.get("attrs"), bool(alt)) + "  " + esc(x["module"])
         if x.get("params") and not alt:
             head += " #(" + ", ".join(".%s(%s)" % kv for kv in x["params"].items()) + ")"
         elif x.get("empty_params"):
